@@ -4,14 +4,15 @@
     [Print Assumptions].  All statements are about [gen_fnsym_facts], the facts REGENERATED from
     /repo/src/mxlpy/meta/source_tools.py on every run; [C06_facts_pinned] is the obligation that
     breaks when an operator table, the comparison table (symbolic Eq/Ne), [simultaneous=True],
-    the tuple-assignment order, the treatment of unknown statements / keyword arguments or the
-    shape of the if/return/assign blocks of [_handle_fn_body] is edited.
+    the tuple-assignment order, the treatment of unknown statements / keyword arguments, the
+    shape of the if/return/assign blocks of [_handle_fn_body] (which table each branch of an if is
+    translated on) or the moment module constants are read is edited.
 
     Reading guide: [fds] is a module (list of definitions, calls go to earlier ones);
     [py_call fds i vs] is the value CPython gives function i on arguments vs ([None] = no numeric
     value); [fn_to_sympy fs fds i margs] is the translator's result ([None] = no expression; [margs = []]
     is model_args=None); [seval rho e] is the value of a SymPy expression under the valuation rho. *)
-From FnSym Require Import FnToSym GenFnSymFacts SymProofs FnToSymProofs FnToSymRefuted.
+From FnSym Require Import FnToSym ConstEnv GenFnSymFacts SymProofs FnToSymProofs FnToSymProofs2 FnToSymRefuted.
 
 Theorem C06_facts_pinned :
   gen_fnsym_facts =
@@ -19,7 +20,7 @@ Theorem C06_facts_pinned :
     [(Add, Add); (Sub, Sub); (Mul, Mul); (Div, Div); (Pow, Pow); (Mod, Mod); (FloorDiv, FloorDiv)]
     [(UAdd, UAdd); (USub, USub)]
     [(Gt, RelGt); (GtE, RelGe); (Lt, RelLt); (LtE, RelLe); (CEq, RelEq); (CNe, RelNe)]
-    true SubsSim TupSim StmtRaise CfContinuation true true true.
+    true SubsSim TupSim StmtRaise (CfContinuation BrCopy BrCopy) true true true ConstAtCall.
 Proof. vm_compute. reflexivity. Qed.
 Print Assumptions C06_facts_pinned.
 
@@ -87,6 +88,63 @@ Theorem C06_refusal_visible_stmt :
 Proof. exact (unsupported_stmt_refused gen_fnsym_facts C06_facts_pinned). Qed.
 Print Assumptions C06_refusal_visible_stmt.
 
+(** REFUSAL IS VISIBLE, whole bodies.  [refuses_ss body false] says: on SOME path through the ifs of
+    the body the translator reaches an unknown statement (while/for/augmented, annotated or chained
+    assignment ...), a bare return, or an assignment / tuple assignment / return / if-test containing
+    an unsupported expression node -- where a path ends at the first return (code after it is dead and
+    legitimately not looked at) and an if sends both branches into the statements that follow it.
+    Then the function has no translation, for every table of callee summaries, and so has the module
+    entry point under every renaming. *)
+Theorem C06_refusal_visible_body :
+  forall S fd, refuses_ss (fd_body fd) false = true -> tfun gen_fnsym_facts S fd = None.
+Proof. exact (tfun_refused_fs gen_fnsym_facts C06_facts_pinned). Qed.
+Print Assumptions C06_refusal_visible_body.
+
+Theorem C06_refusal_visible_module :
+  forall fds i fd margs,
+    nth_error fds i = Some fd -> refuses_ss (fd_body fd) false = true ->
+    fn_to_sympy gen_fnsym_facts fds i margs = None.
+Proof. exact (module_refused gen_fnsym_facts C06_facts_pinned). Qed.
+Print Assumptions C06_refusal_visible_module.
+
+(** NAMED CONSTANTS, every constant environment.  [now] = the float tables of the modules at the
+    time of the call (module id -> name -> value; attribute constants included), [first] = whatever
+    tables earlier translations in the same process saw.  The expression returned NOW equals the
+    function as it computes NOW, whatever happened before. *)
+Theorem C06_sound_every_constant_environment :
+  forall first now ms i margs e vs v rho,
+    margs <> [] ->
+    translate gen_fnsym_facts first now ms i margs = Some e ->
+    py_value now ms i vs = Some v ->
+    Forall2 (fun m x => seval rho m = Some x) margs vs ->
+    seval rho e = Some v.
+Proof. exact (sound_constants_renamed gen_fnsym_facts C06_facts_pinned). Qed.
+Print Assumptions C06_sound_every_constant_environment.
+
+Theorem C06_sound_every_constant_environment_unrenamed :
+  forall first now ms i ps e vs v rho,
+    translate_summary gen_fnsym_facts first now ms i = Some (ps, e) ->
+    py_value now ms i vs = Some v ->
+    (forall x q, assoc x (combine ps vs) = Some q -> rho x = Some q) ->
+    length ps = length vs /\ seval rho e = Some v.
+Proof. exact (sound_constants_unrenamed gen_fnsym_facts C06_facts_pinned). Qed.
+Print Assumptions C06_sound_every_constant_environment_unrenamed.
+
+Theorem C06_translation_ignores_history :
+  forall first first' now ms i margs,
+    translate gen_fnsym_facts first now ms i margs = translate gen_fnsym_facts first' now ms i margs.
+Proof. exact (translate_history_free gen_fnsym_facts C06_facts_pinned). Qed.
+Print Assumptions C06_translation_ignores_history.
+
+(** the table-threading model used for the other shapes of the if block (below), specialised to
+    "each branch gets its own copy", is the pure model the soundness theorems are about *)
+Theorem C06_threaded_model_agrees :
+  forall S G fuel body rem sigma,
+    fst (tbody_sh gen_fnsym_facts S G BrCopy BrCopy fuel body rem sigma) =
+    tbody gen_fnsym_facts S G fuel body rem sigma.
+Proof. exact (threaded_copy_is_pure gen_fnsym_facts (f_equal f_cf C06_facts_pinned)). Qed.
+Print Assumptions C06_threaded_model_agrees.
+
 (** The pinned facts are load-bearing: with the facts of the unrepaired source the same model
     returns a WRONG expression (witnesses = findings on the real unrepaired code, now fixed). *)
 Theorem C06_sequential_subs_refuted :
@@ -116,6 +174,87 @@ Theorem C06_sequential_tuple_refuted :
 Proof. exact seq_tuple_wrong. Qed.
 Print Assumptions C06_sequential_tuple_refuted.
 
+(** CONTROL FLOW regression theorems ([wrong_on fs fd vs]: the model with facts fs translates fd to
+    an expression whose value at vs differs from the function's).  Each is a shape the real code had
+    or was seeded with; the witnesses are in harness/c06_corpus.py and run on every check. *)
+(** one copy of the table handed to BOTH branches (seeded C07-2): branch leak on
+    `b = 0; if a > 1: b = a; return b` at a = 1 *)
+Theorem C06_shared_copy_refuted :
+  exists ps e v rho,
+    nth_error (summaries facts_shared_copy [w_leak]) 0 = Some (Some (ps, e)) /\
+    py_call [w_leak] 0 [1#1] = Some v /\
+    (forall x q, assoc x (combine ps [1#1]) = Some q -> rho x = Some q) /\
+    seval rho e <> Some v.
+Proof. exact shared_copy_leaks. Qed.
+Print Assumptions C06_shared_copy_refuted.
+
+(** the if-branch translated on the enclosing table itself: the same leak *)
+Theorem C06_if_on_enclosing_table_refuted :
+  exists ps e v rho,
+    nth_error (summaries facts_if_on_ctx [w_leak]) 0 = Some (Some (ps, e)) /\
+    py_call [w_leak] 0 [1#1] = Some v /\
+    (forall x q, assoc x (combine ps [1#1]) = Some q -> rho x = Some q) /\
+    seval rho e <> Some v.
+Proof. exact if_on_ctx_leaks. Qed.
+Print Assumptions C06_if_on_enclosing_table_refuted.
+
+(** the translator before /repo cc17922 (pieces list, one table, code after if/else dropped):
+    branch leak, and `if a > 1: b = a  else: b = a**2;  return b + 1` loses the + 1 at a = 2 *)
+Theorem C06_old_control_flow_branch_leak_refuted :
+  exists ps e v rho,
+    nth_error (summaries facts_old_pieces [w_leak]) 0 = Some (Some (ps, e)) /\
+    py_call [w_leak] 0 [1#1] = Some v /\
+    (forall x q, assoc x (combine ps [1#1]) = Some q -> rho x = Some q) /\
+    seval rho e <> Some v.
+Proof. exact old_pieces_leaks. Qed.
+Print Assumptions C06_old_control_flow_branch_leak_refuted.
+
+Theorem C06_old_control_flow_dropped_code_refuted :
+  exists ps e v rho,
+    nth_error (summaries facts_old_pieces [w_after_else]) 0 = Some (Some (ps, e)) /\
+    py_call [w_after_else] 0 [2#1] = Some v /\
+    (forall x q, assoc x (combine ps [2#1]) = Some q -> rho x = Some q) /\
+    seval rho e <> Some v.
+Proof. exact old_pieces_drops_code. Qed.
+Print Assumptions C06_old_control_flow_dropped_code_refuted.
+
+(** the copy elided for a branch without a top-level assignment (seeded C06-1): a guard-style if
+    (nested return-only if without else; or `pass`) followed by `x = x * 2; return x + 1` applies the
+    reassignment twice on the path that skips the guard *)
+Theorem C06_elided_copy_refuted :
+  (exists ps e v rho,
+    nth_error (summaries facts_copy_if_binds [w_guard]) 0 = Some (Some (ps, e)) /\
+    py_call [w_guard] 0 [1#1; 0#1] = Some v /\
+    (forall x q, assoc x (combine ps [1#1; 0#1]) = Some q -> rho x = Some q) /\
+    seval rho e <> Some v) /\
+  (exists ps e v rho,
+    nth_error (summaries facts_copy_if_binds [w_pass_guard]) 0 = Some (Some (ps, e)) /\
+    py_call [w_pass_guard] 0 [1#1] = Some v /\
+    (forall x q, assoc x (combine ps [1#1]) = Some q -> rho x = Some q) /\
+    seval rho e <> Some v).
+Proof. exact (conj copy_if_binds_doubles copy_if_binds_doubles_pass). Qed.
+Print Assumptions C06_elided_copy_refuted.
+
+(** ... and with the shipped facts the model is right on all four witnesses at those points *)
+Theorem C06_per_path_right_on_witnesses :
+  ~ wrong_on expected_facts w_leak [1#1] /\ ~ wrong_on expected_facts w_after_else [2#1] /\
+  ~ wrong_on expected_facts w_guard [1#1; 0#1] /\ ~ wrong_on expected_facts w_pass_guard [1#1].
+Proof. exact per_path_right_on_witnesses. Qed.
+Print Assumptions C06_per_path_right_on_witnesses.
+
+(** CONSTANTS regression theorem (seeded C06-3): a translator that remembers a module's float table
+    from its first lookup returns, after `K = 4.0`, the expression of the earlier translation, which
+    is not the function any more *)
+Theorem C06_cached_constants_refuted :
+  exists first now ms i e vs v rho,
+    translate facts_cached_consts [] first ms i [] = Some e /\
+    translate facts_cached_consts first now ms i [] = Some e /\
+    py_value now ms i vs = Some v /\
+    (forall x q, assoc x (combine (mf_params w_uses_k) vs) = Some q -> rho x = Some q) /\
+    seval rho e <> Some v.
+Proof. exact cached_constants_wrong. Qed.
+Print Assumptions C06_cached_constants_refuted.
+
 (** non-vacuity: a two-function module with a branch-local assignment, an elif with ==, a tuple
     assignment, code after the if and a call whose arguments are swapped, translated with its
     arguments renamed onto each other; hypotheses of C06_sound hold and the values agree *)
@@ -129,3 +268,21 @@ Example C06_nonvacuous :
     seval (fun x => assoc x [(2%N, 1#1); (1%N, 1#1)]) e = Some (0#1).
 Proof. exact nonvacuous_witness. Qed.
 Print Assumptions C06_nonvacuous.
+
+(** non-vacuity of the constants theorem: translated after K was rebound from 5/2 to 4, under the
+    renaming a -> v7; the hypotheses hold and the values agree (12 = 3 * 4) *)
+Example C06_constants_nonvacuous :
+  exists e,
+    translate expected_facts [(0%N, [(50%N, 5#2)])] [(0%N, [(50%N, 4#1)])] [w_uses_k] 0 [SSym 7%N] = Some e /\
+    py_value [(0%N, [(50%N, 4#1)])] [w_uses_k] 0 [3#1] = Some (12#1) /\
+    seval (fun x => assoc x [(7%N, 3#1)]) e = Some (12#1).
+Proof. exact constants_nonvacuous. Qed.
+Print Assumptions C06_constants_nonvacuous.
+
+(** non-vacuity of whole-body refusal: `a += 1` on one path behind two ifs, with a return after them *)
+Example C06_refusal_body_nonvacuous :
+  refuses_ss (fd_body w_deep_other) false = true /\
+  refuses_ss (fd_body nv_outer) false = false /\
+  fn_to_sympy expected_facts [w_deep_other] 0 [] = None.
+Proof. exact (conj eq_refl (conj eq_refl eq_refl)). Qed.
+Print Assumptions C06_refusal_body_nonvacuous.
